@@ -81,36 +81,24 @@ impl CredSoftLockPolicy {
                 let rem = next_day_end % ONEDAY;
                 let reset_at = Duration::from_secs(next_day_end - rem);
 
-                if count < 3 {
-                    LockState::Locked {
-                        count,
-                        reset_at,
-                        unlock_at: ct + Duration::from_secs(1),
-                    }
+                // The lock must never be cut short by the count window: if the delay
+                // reaches past the end of the window, keep the window open until the lock is
+                // released (otherwise the window reset would re-open the credential early).
+                let unlock_at = if count < 3 {
+                    ct + Duration::from_secs(1)
                 } else if count < 9 {
-                    LockState::Locked {
-                        count,
-                        reset_at,
-                        unlock_at: ct + Duration::from_secs(3),
-                    }
+                    ct + Duration::from_secs(3)
                 } else if count < 25 {
-                    LockState::Locked {
-                        count,
-                        reset_at,
-                        unlock_at: ct + Duration::from_secs(5),
-                    }
+                    ct + Duration::from_secs(5)
                 } else if count < 100 {
-                    LockState::Locked {
-                        count,
-                        reset_at,
-                        unlock_at: ct + Duration::from_secs(10),
-                    }
+                    ct + Duration::from_secs(10)
                 } else {
-                    LockState::Locked {
-                        count,
-                        reset_at,
-                        unlock_at: reset_at,
-                    }
+                    reset_at
+                };
+                LockState::Locked {
+                    count,
+                    reset_at: reset_at.max(unlock_at),
+                    unlock_at,
                 }
             }
             CredSoftLockPolicy::Totp(step) => {
@@ -120,18 +108,15 @@ impl CredSoftLockPolicy {
                 let reset_at = Duration::from_secs(next_window_end - rem);
                 // We delay for 1 second, unless count is > 3, then we set
                 // unlock at to reset_at.
-                if count >= 3 {
-                    LockState::Locked {
-                        count,
-                        reset_at,
-                        unlock_at: reset_at,
-                    }
+                let unlock_at = if count >= 3 {
+                    reset_at
                 } else {
-                    LockState::Locked {
-                        count,
-                        reset_at,
-                        unlock_at: ct + Duration::from_secs(1),
-                    }
+                    ct + Duration::from_secs(1)
+                };
+                LockState::Locked {
+                    count,
+                    reset_at: reset_at.max(unlock_at),
+                    unlock_at,
                 }
             }
             CredSoftLockPolicy::Webauthn => {
@@ -542,3 +527,6 @@ mod tests {
         );
     }
 }
+
+/// Verification hooks (add-only, behaviour-neutral): read and construct the private
+/// lock state so an external harness can compare it with a model.
